@@ -68,4 +68,22 @@ CHECKS = {
         quick=dict(stages=[st(2500, timeout=900)]),
         thorough=dict(stages=[st(5000, shards=16, timeout=3000)]),
     ),
+    "C10": dict(
+        pkg="c10", level="exploration",
+        rule="rapid-generated (GR4J / Sacramento / Simhyd / Surm / RunoffCoefficient, parameters in the documented or physical ranges, rainfall/PET series mixing dry spells, exponential bulk and storms, length 1..80 (thorough to 3000), initial states zero or from a previous run, GR4J classes x2<=0 and x2=0 with PET=0); "
+             "oracle (invariants over the whole output history): outputs finite and >= 0, stores within [0, capacity] at the end and at drawn cut points, runoff = quick/surface + baseflow, cumulative runoff (+ actual ET) <= cumulative rainfall + initial storage, GR4J balance closes for x2=0, PET=0. "
+             "Non-trivial = series with a storm (> 20 mm), a dry spell of >= 5 steps and length >= 20; distinct = distinct case",
+        assumptions=["Surm smax >= 10 mm (below that its ET term 10*S/smax is not bounded by the store); Sacramento capacities >= 5 mm; GR4J budget only for x2 <= 0",
+                     "tolerance 1e-9*(1+sum of magnitudes entering the identity)"],
+        quick=dict(stages=[st(4000, timeout=900)]),
+        thorough=dict(stages=[st(3000, shards=16, timeout=3000)]),
+    ),
+    "C15": dict(
+        pkg="c15", level="exploration",
+        rule="rapid-generated ((x1,x2,x3,x4) over the documented ranges with x4 forced through every unit-hydrograph length class and values at/just below/just above integers and half-integers, non-negative rain/PET series, initial stores zero or carried from a warm-up of the reference); "
+             "oracle: an independent implementation of Perrin et al. (2003) (simref/gr4jref.go) compared on runoff at every step and on (S, R, UH stores) at the end, 1e-9 relative + 1e-10*(1+magnitude). Non-trivial = x4 >= 2 or x4 < 1 and a storm; distinct = distinct case",
+        assumptions=["the reference implementation in simref/gr4jref.go transcribes the published equations correctly"],
+        quick=dict(stages=[st(4000, timeout=900)]),
+        thorough=dict(stages=[st(30000, shards=16, timeout=3000)]),
+    ),
 }
